@@ -34,6 +34,13 @@ def exc_info(e):
     return (type(e).__name__, fn, where, str(e)[:160])
 
 
+def msg_token(msg):
+    """short value-independent token of an exception message (digits and quotes dropped)"""
+    import re
+    t = re.sub(r"[0-9'\"().,:\[\]]+", ' ', msg.split('\n')[0])
+    return ' '.join(t.split())[:40]
+
+
 def snap_population(pop):
     out = []
     for a in pop:
@@ -145,6 +152,7 @@ def run_execution(scn, dev=None, expect=None, opt=None, task=None, keep_args=Fal
                 raise
             except Exception as e:
                 ex.exc = exc_info(e)
+                ex.extra['exc_is_valueerror'] = isinstance(e, ValueError)
     finally:
         CTL.active = False
         pools.uninstall()
@@ -212,7 +220,7 @@ def state_hashes(ex):
     """state = (optimizer, cycle k, sorted multiset of (position, internal cost) of generation k)"""
     out = []
     for k, g in enumerate(ex.snaps):
-        ms = sorted((canon_num(p), canon_num(c)) for p, c, f in g)
+        ms = sorted(repr((canon_num(p), canon_num(c))) for p, c, f in g)
         out.append(h8((ex.scn['opt'], ex.scn['proto'], ex.scn.get('minmax', 'min'), k, ms)))
     return out
 
